@@ -46,16 +46,30 @@ def final_count(c):
     return None, d
 
 
-def extra_oracle(ctx, c, a, b):
-    n, d = final_count(c)
-    if not (isinstance(n, int) and not isinstance(n, bool)) or not isinstance(a, list) or a[-1][0] != "out":
-        return None
-    body = {k: v for k, v in d.items() if k != "$repeat"}
-    keys_ok = all(isinstance(k, str) for k in body)
-    expanded = [subst(body, i) for i in range(max(n, 0))]
-    case2 = ["history", None, hist.stream_history(expanded)]
-    im2, mo2 = hist.run_histories(ctx, [case2])
-    o1, o2 = a[-1][1], im2[0][-1][1] if im2[0] and im2[0][-1][0] == "out" else None
+def extra_batch(ctx, cases, im, mo):
+    idx, c2s, ns = [], [], []
+    for i, c in enumerate(cases):
+        n, d = final_count(c)
+        a = im[i]
+        if not (isinstance(n, int) and not isinstance(n, bool)) or not isinstance(a, list) or not a or a[-1][0] != "out":
+            continue
+        body = {k: v for k, v in d.items() if k != "$repeat"}
+        expanded = [subst(body, j) for j in range(max(n, 0))]
+        idx.append(i)
+        ns.append(n)
+        c2s.append(["history", None, hist.stream_history(expanded)])
+    out = [None] * len(cases)
+    if not c2s:
+        return out
+    im2, _ = hist.run_histories(ctx, c2s)
+    for i, n, r in zip(idx, ns, im2):
+        out[i] = compare_expanded(im[i], r, n)
+    return out
+
+
+def compare_expanded(a, r2, n):
+    o1 = a[-1][1]
+    o2 = r2[-1][1] if isinstance(r2, list) and r2 and r2[-1][0] == "out" else None
     if o2 is None:
         return None
     if o1[0] != o2[0]:
@@ -99,7 +113,7 @@ def dist_fn(dist, c, a, b):
 
 def run(ctx):
     n = 1500 if ctx.tier == "quick" else 30000
-    return histprop.run_history_property(ctx, "C12", gen_case, n, RULE, nontrivial, extra_oracle=extra_oracle, dist_fn=dist_fn)
+    return histprop.run_history_property(ctx, "C12", gen_case, n, RULE, nontrivial, extra_batch=extra_batch, dist_fn=dist_fn)
 
 
 def replay(ctx, payload):
